@@ -88,5 +88,18 @@ MORE = [
             id for id in self.conditional_ids if id not in self._local_vars
         ]''',
          new='''        fn_params = self.local_vars + self.conditional_ids'''),
+    dict(id="not_lt_to_ge", props=["C02"], file=G,
+         old='''                if (
+                    predicate.boolean_operator == BooleanOperatorEnum.NOT
+                ):  # special case
+                    return f"({operator} {l_pred})"''',
+         new='''                if (
+                    predicate.boolean_operator == BooleanOperatorEnum.NOT
+                ):  # special case
+                    inner = predicate.left_predicate
+                    if isinstance(inner, TerminalPredicate) and inner.logical_operator == LogicalOperatorEnum.LT:
+                        # not (a < b)  ==  a >= b
+                        return f"({self._generate_term(inner.left_term)} >= {self._generate_term(inner.right_term)})"
+                    return f"({operator} {l_pred})"'''),
     dict(id="tuple_str_again", props=["C07", "C05"], file=G, old="            case tuple() | list():", new="            case frozenset():"),
 ]
